@@ -695,7 +695,8 @@ def check_frames(ctx, env, def_strings, cells):
     ctx.case(("f", tuple(def_strings), tuple(cells)), nontrivial=any("Def" in c for c in cells))
     try:
       with watchdog(20):
-        expanded = [exp(c) for c in cells]
+        # shrink is applied to the expanded cells and to the cells as written (Def-expand in any spelling)
+        expanded = [exp(c) for c in cells] + [c for c in cells if "def-expand/" in c.casefold()]
         for what, fn, want_fn, src in (("expand", lambda d, **k: df_util.expand_defs(d, env.schema, dd, **k), exp, cells),
                                        ("shrink", lambda d, **k: df_util.shrink_defs(d, env.schema, **k), shr, expanded)):
             want = [want_fn(c) for c in src]
@@ -716,6 +717,20 @@ def check_frames(ctx, env, def_strings, cells):
             ctx.count(f"frames-{what}")
     except Exception as e:    # noqa
         ctx.violation("frame-operation-raised", case, f"{type(e).__name__}: {e}")
+
+
+# HED tags are case-insensitive and may be written in long or partial-path form: the Def / Def-expand NAME part in
+# every spelling; cells where ALL such tags are non-canonical, mixed cells, cells with none.
+FRAME_SPELLINGS = [
+    "def/A", "DEF/Spd/3", "dEf/a, Red", "Def/B", "(def/Lab/x7, Blue), DEF/E",
+    "property/organizational-property/def/A", "Property/Organizational-property/Def/B", "organizational-property/DEF/B",
+    "Organizational-property/def/Spd/4.5, (Item, deF/Nest)",
+    "def/A, Def/B", "(DEF/Acc/3, Circle), (Def/Em)", "Red, (Blue, Green)", "Label/def, Item",
+    "(def-expand/A, (Blue, Red))", "(DEF-EXPAND/Spd/3, (Speed/3 mph))", "(Def-Expand/B, (Green)), Red",
+    "(Def-expand/B, (Green))", "(property/organizational-property/def-expand/A, (Blue, Red)), Square",
+    "(Organizational-property/DEF-expand/Lab/x7, (Label/x7, Red))",
+    "(def-expand/A, (Blue, Red)), (Def-expand/B, (Green))", "(def-Expand/E), def/A", "(DEF-EXPAND/Zed, (Red))",
+]
 
 
 def check_gather(ctx, env, def_strings, cells):
@@ -1068,7 +1083,17 @@ def run(ctx):
         with watchdog(30):
             check_gather_model(ctx, env, k, cells, a)
     ctx.check_time()
-    # (c) frames, (d) gathering
+    # (c) frames: every spelling of the Def / Def-expand name, alone, all together, and in random subsets;
+    # the same cells as one-object histories tie the string level to the model
+    for c in FRAME_SPELLINGS:
+        check_frames(ctx, env, GOOD_DEFS[:5], [c, "Red, Blue"])      # smallest witnesses first
+    check_frames(ctx, env, GOOD_DEFS, FRAME_SPELLINGS)
+    for _ in range(10 if quick else 100):
+        check_frames(ctx, env, GOOD_DEFS, rng.sample(FRAME_SPELLINGS, rng.randint(2, 6)))
+    histories(ctx, env, [(GOOD_DEFS, c, ops) for c in FRAME_SPELLINGS
+                         for ops in (["expand"], ["shrink"], ["expand", "shrink", "expand"], ["shrink", "expand", "validate"])])
+    ctx.extra["frame_spellings"] = len(FRAME_SPELLINGS)
+    # (c) frames on generated cells, (d) gathering
     for _ in range(40 if quick else 400):
         defs = gen_defset(rng) if rng.random() < 0.5 else GOOD_DEFS
         refd, _ = ref_accept(defs, env.takes_value_tag, env.bad_prop_tag)
